@@ -176,6 +176,8 @@ func runLane[C any](s *suite, l Lane[C]) {
 			fmt.Printf("  sig=%s\n  %s\n", o.Sig, o.Fail)
 			s.bad = true
 			t.Errorf("replay fails: [%s] %s", o.Sig, o.Fail)
+		} else if o.Inconcl != "" {
+			fmt.Printf("replay inconclusive: %s\n", o.Inconcl)
 		} else {
 			fmt.Printf("replay passes (property holds on this case)\n")
 		}
